@@ -67,6 +67,7 @@ pub enum Case {
     C09B(crate::prop::c09::BorrowCase),
     C11(crate::prop::c11::StreamCase),
     C07(crate::prop::c07::BudgetCase),
+    C15(crate::prop::c15::HistoryCase),
 }
 
 #[derive(Clone, Debug, Serialize, Deserialize)]
